@@ -523,9 +523,17 @@ class Interp:
                         out.extend(self.exec_block(node.orelse, se, ctx) if node.orelse else [(se, None)])
                     if k == self.unroll or (exact is not None and exact <= k):
                         continue
+                    if itv[0] == "slicelist" and itv[3] is not None and k >= itv[3] - itv[2]:
+                        continue  # the slice has at most hi-lo elements
                     s1.pc.append(("iterge", itv, k + 1))
                     elem = ("sym", f"{base}[{k}]", ("elemof", itv))
-                    if itv[0] == "chunks":
+                    if itv[0] == "slicelist":
+                        b0 = itv[1]
+                        et = b0[2][1]
+                        if len(b0[2]) > 2 and b0[2][2] == "distinct":
+                            et = ("distinct", et, b0[1])
+                        elem = self.materialise(("sym", f"{b0[1]}[{k + itv[2]}]", et), s1)
+                    elif itv[0] == "chunks":
                         elem = T.slice_seq(itv[1], k * itv[2], (k + 1) * itv[2])
                     elif itv[0] == "sym" and isinstance(itv[2], tuple) and itv[2] and itv[2][0] in ("list", "set"):
                         et = itv[2][1]
